@@ -947,6 +947,7 @@ func (r *proxyStreamReceiver) sendPendingWatermarkToShard(targetShardID history.
 
 	// Try to send to local shard first
 	if sendChan, exists := r.shardManager.GetRemoteSendChan(targetShardID); exists {
+		verifPoint("replay.afterLookup")
 		clonedResp := proto.Clone(msg.Resp).(*adminservice.StreamWorkflowReplicationMessagesResponse)
 		clonedMsg := RoutedMessage{
 			SourceShard: msg.SourceShard,
